@@ -561,7 +561,7 @@ func (t *Tree) RerootMidPoint() error {
 		if err != nil {
 			return err
 		}
-		if length > curlength {
+		if potentialedges == nil || length > curlength {
 			curlength = length
 			potentialedges = edges
 		}
@@ -579,7 +579,7 @@ func (t *Tree) RerootMidPoint() error {
 	// Necessary because orientation changes during the path
 	// when we cross the root node.
 	var node1, node2 *Node
-	for float64(len) < curlength/2.0 {
+	for i == 0 || float64(len) < curlength/2.0 {
 		// First tip
 		if i == 0 {
 			node1 = potentialedges[i].Right()
@@ -644,7 +644,7 @@ func MaxLengthPath(cur *Node, prev *Node) ([]*Edge, float64, error) {
 			if err != nil {
 				return nil, -1, err
 			}
-			if l+e.Length() > curlength {
+			if potentialedges == nil || l+e.Length() > curlength {
 				curlength = l + e.Length()
 				potentialedges = append(edges, e)
 			}
